@@ -191,9 +191,9 @@ func vC03Universe(r *rand.Rand) []string {
 		l2 + "." + l1 + "." + tld,
 		l3 + "." + l2 + "." + l1 + "." + tld,
 		l2 + "." + tld,
-		l1 + l2 + "." + tld,             // string-suffix but not label-suffix relatives
-		"x" + l1 + "." + tld,            //   "
-		l1 + "." + "x" + tld,            // sibling zone whose spelling ends like the zone
+		l1 + l2 + "." + tld,  // string-suffix but not label-suffix relatives
+		"x" + l1 + "." + tld, //   "
+		l1 + "." + "x" + tld, // sibling zone whose spelling ends like the zone
 		".",
 	}
 	// keep only names the library can pack and prints back unchanged (canonical presentation)
@@ -296,24 +296,24 @@ type vC03Hist struct {
 	fail  string
 	incon bool
 
-	nextID   uint64
-	ptr      map[uint64]*CacheEntry // id -> entry pointer (for ReplaceIfCurrent)
-	stored   []vC03Stored
-	keys     map[uint64]string // hash -> preimage, to detect a genuine xxhash collision inside one history
-	failIDs  map[string]uint64
-	cutIDs   map[uint64]bool
-	negUsed  bool
-	nextShape int // shape of the next alias entry (0 plain)
-	now      time.Time // the failure cache's injected clock
+	nextID        uint64
+	ptr           map[uint64]*CacheEntry // id -> entry pointer (for ReplaceIfCurrent)
+	stored        []vC03Stored
+	keys          map[uint64]string // hash -> preimage, to detect a genuine xxhash collision inside one history
+	failIDs       map[string]uint64
+	cutIDs        map[uint64]bool
+	negUsed       bool
+	nextShape     int       // shape of the next alias entry (0 plain)
+	now           time.Time // the failure cache's injected clock
 	nextRefreshID atomic.Uint64
-	pol      [4]uint8
-	batteries int
-	target   []vC03Spec // specs the next lookups should probe (both sides of the latest forged placement)
-	raw      bool // the universe holds raw non-ASCII names
-	hot      []vC03Spec // questions of recorded failures / cuts: lookups aim at them and their descendants
-	hits     int
-	forged   int
-	forgedLk int
+	pol           [4]uint8
+	batteries     int
+	target        []vC03Spec // specs the next lookups should probe (both sides of the latest forged placement)
+	raw           bool       // the universe holds raw non-ASCII names
+	hot           []vC03Spec // questions of recorded failures / cuts: lookups aim at them and their descendants
+	hits          int
+	forged        int
+	forgedLk      int
 }
 
 type vC03Stored struct {
@@ -709,6 +709,46 @@ func (h *vC03Hist) opFailQ() {
 	h.hot = append(h.hot, s)
 	h.ops = append(h.ops, fmt.Sprintf("OpFailQ %s %s %s %d", s.q.coq(), vC03Bool(s.cd), vC03Scope(s.scope), id))
 	h.desc = append(h.desc, fmt.Sprintf("fail-question#%d %v", id, s))
+}
+
+// one question climbs the RFC 9520 backoff ladder: recorded, left to (almost) expire, probed, recorded
+// again (a renewal with the next generation when it had expired, nothing when it was still active),
+// probed on the other side of the new retry-after
+func (h *vC03Hist) opBackoff() {
+	r := h.r
+	s := h.randSpec()
+	if r.Intn(2) == 0 {
+		s.scope = netip.Prefix{}
+	}
+	rec := func() {
+		id := h.failID(vC03FailKey(s.q.name, s.q.qtype, s.q.qclass, s.cd, s.scope))
+		h.c.store.RecordFailure(vC03Req(s.q, s.cd), s.scope, FailureProvenance("response"), nil)
+		h.ops = append(h.ops, fmt.Sprintf("OpFailQ %s %s %s %d", s.q.coq(), vC03Bool(s.cd), vC03Scope(s.scope), id))
+		h.desc = append(h.desc, fmt.Sprintf("fail-question#%d %v", id, s))
+	}
+	step := func() {
+		ms := []int{1, 4999, 5000, 5001, 9999, 10000, 10001, 14999, 15001, 19999, 20001, 39999, 40001, 80001}[r.Intn(14)]
+		h.now = h.now.Add(time.Duration(ms) * time.Millisecond)
+		h.ops = append(h.ops, fmt.Sprintf("OpClock %d", ms))
+		h.desc = append(h.desc, fmt.Sprintf("clock +%dms", ms))
+	}
+	probe := func() {
+		at := s
+		at.q.name = vC03MixCase(r, at.q.name)
+		h.failAt(at)
+		if !normalizeKeyScope(s.scope).IsValid() && r.Intn(2) == 0 {
+			h.failWireAt(at)
+		}
+	}
+	h.hot = append(h.hot, s)
+	rec()
+	for g := 0; g < 2+r.Intn(3); g++ {
+		step()
+		probe()
+		rec()
+		step()
+		probe()
+	}
 }
 
 func (h *vC03Hist) opFailZ() {
@@ -1179,6 +1219,9 @@ func (h *vC03Hist) resolveHistory() {
 		return
 	}
 	n := 7 + r.Intn(7)
+	if os.Getenv("VERIF_TIER") == "thorough" && r.Intn(2) == 0 {
+		n = 14 + r.Intn(20)
+	}
 	for i := 0; i < n; i++ {
 		s := qs[r.Intn(len(qs))]
 		s.q.name = vC03MixCase(r, s.q.name)
@@ -1541,7 +1584,8 @@ func (h *vC03Hist) setAliasTagged(key, ident vC03Spec, target string, id uint64,
 }
 
 // give a response one of the shapes the wire chase refuses to compose from; returns whether it stayed plain
-//   1 authority record, 2 additional record, 3 a record type the composer cannot re-encode
+//
+//	1 authority record, 2 additional record, 3 a record type the composer cannot re-encode
 func (h *vC03Hist) shape(resp *dns.Msg, kind int) bool {
 	q := resp.Question[0]
 	switch kind {
@@ -2096,13 +2140,16 @@ func vC03History(r *rand.Rand) map[string]any {
 	}
 	c := New(cfg)
 	defer c.Stop()
-	h := &vC03Hist{now: time.Unix(1_900_000_000, 0),r: r, c: c, edns: ednsmw.New(cfg), names: vC03Universe(r), nextID: 1, pol: pol,
+	h := &vC03Hist{now: time.Unix(1_900_000_000, 0), r: r, c: c, edns: ednsmw.New(cfg), names: vC03Universe(r), nextID: 1, pol: pol,
 		ptr: map[uint64]*CacheEntry{}, keys: map[uint64]string{}, failIDs: map[string]uint64{}, cutIDs: map[uint64]bool{}}
 	c.failure.now = func() time.Time { return h.now }
 	if c.ecsPolicy == nil {
 		return map[string]any{"inconclusive": true}
 	}
 	n := 8 + r.Intn(9)
+	if os.Getenv("VERIF_TIER") == "thorough" && r.Intn(2) == 0 {
+		n = 17 + r.Intn(24) // the thorough tier also runs histories two to three times as long
+	}
 	if flavour == 6 || flavour == 7 {
 		kind, fkey := "hist-prefetch", ""
 		if flavour == 6 {
@@ -2169,7 +2216,7 @@ func vC03History(r *rand.Rand) map[string]any {
 	switch flavour {
 	case 2:
 		table = []wop{{16, h.opSet}, {3, h.opReplace}, {2, h.opRemove}, {5, h.opPurge}, {12, h.opFailQ}, {6, h.opFailZ},
-			{8, h.opFailForge}, {12, h.opClock}, {22, h.opServe}, {4, h.opLookup}, {6, h.opGet}, {10, h.opFail}, {10, h.opFailWire}}
+			{8, h.opFailForge}, {12, h.opClock}, {5, h.opBackoff}, {22, h.opServe}, {4, h.opLookup}, {6, h.opGet}, {10, h.opFail}, {10, h.opFailWire}}
 	case 3:
 		table = []wop{{16, h.opSet}, {3, h.opReplace}, {2, h.opRemove}, {5, h.opPurge}, {14, h.opCut}, {4, h.opFailQ},
 			{7, h.opCutForge}, {6, h.opCutExpire}, {3, h.opClock}, {24, h.opServe}, {4, h.opLookup}, {8, h.opGet}, {9, h.opCutL}, {9, h.opCutWire}}
@@ -2283,6 +2330,7 @@ type vC03CScript struct {
 	Pol     [4]uint8    `json:"pol"`
 	TLD     string      `json:"tld"`
 	Queryer string      `json:"queryer"` // "", "loop", "store", "prefetch"
+	Kind    string      `json:"kind"`
 	Steps   []vC03CStep `json:"steps"`
 }
 
@@ -2376,8 +2424,46 @@ func vC03RunScript(sc vC03CScript) map[string]any {
 	if h.incon {
 		return map[string]any{"inconclusive": true}
 	}
-	return map[string]any{"k": "corpus", "coq": h.caseTerm(), "go_fail": h.fail, "nontrivial": h.hits > 0 || len(h.failIDs) > 0,
-		"desc": append([]string{"corpus script " + sc.Name + ": " + sc.Why}, h.desc...)}
+	k := "corpus"
+	if sc.Kind != "" {
+		k = sc.Kind
+	}
+	return map[string]any{"k": k, "coq": h.caseTerm(), "go_fail": h.fail, "nontrivial": h.hits > 0 || len(h.failIDs) > 0,
+		"desc": append([]string{"script " + sc.Name + ": " + sc.Why}, h.desc...)}
+}
+
+// ---- the audience matrix (exhaustive small scope): one downstream response — an answer the authority
+// scopes to /24, a direct SERVFAIL, a self-alias, an alias loop — obtained by each of seven audiences
+// under each CD bit, then probed from every audience under both CD bits through the pipeline (both
+// births) and the failure lookups.  7 x 2 x 4 histories.
+var vC03MatrixAudiences = []string{"", "10.1.2.0/24", "10.1.3.0/24", "10.1.0.0/16", "10.1.2.77/32", "10.1.2.77/0", "2001:db8:1:2::9/48"}
+
+const vC03MatrixSize = 7 * 2 * 4
+
+func vC03AudienceMatrix(idx int) map[string]any {
+	na := len(vC03MatrixAudiences)
+	aud := vC03MatrixAudiences[idx%na]
+	cd := (idx/na)%2 == 1
+	kind := (idx / (2 * na)) % 4
+	sc := vC03CScript{Name: fmt.Sprintf("audience-matrix[%d]", idx), Kind: "audience-matrix", Queryer: "loop",
+		Why: fmt.Sprintf("downstream kind %d obtained by audience %q cd=%v, probed from every audience", kind, aud, cd)}
+	q := func(cd2 bool, scope string) *vC03CSpec {
+		return &vC03CSpec{N: "a.test.", T: 1, C: 1, CD: cd2, S: scope}
+	}
+	bits := 0
+	if kind == 0 && aud != "" {
+		bits = 24
+	}
+	sc.Steps = append(sc.Steps, vC03CStep{Op: "resolve", Q: q(cd, ""), ECS: aud, Kind: kind, Bits: bits, Wire: idx%2 == 0})
+	for i, b := range vC03MatrixAudiences {
+		for j, cd2 := range []bool{cd, !cd} {
+			sc.Steps = append(sc.Steps, vC03CStep{Op: "serve", Q: q(cd2, ""), ECS: b, Wire: (i+j+idx)%2 == 0})
+		}
+		sc.Steps = append(sc.Steps, vC03CStep{Op: "fail", Q: q(cd, b)})
+	}
+	sc.Steps = append(sc.Steps, vC03CStep{Op: "failwire", Q: q(cd, "")}, vC03CStep{Op: "failwire", Q: q(!cd, "")},
+		vC03CStep{Op: "lookup", Q: q(cd, "")}, vC03CStep{Op: "get", Q: q(!cd, "")})
+	return vC03RunScript(sc)
 }
 
 func vC03Corpus(t *testing.T, tr *vC03Trace) {
@@ -2415,6 +2501,9 @@ func TestVerifC03Store(t *testing.T) {
 	tr := vC03Open(t)
 	defer tr.f.Close()
 	vC03Corpus(t, tr)
+	for i := 0; i < vC03MatrixSize; i++ {
+		tr.emit(vC03AudienceMatrix(i))
+	}
 	seed := int64(vC03EnvInt("VERIF_SEED", 1))
 	n := vC03EnvInt("VERIF_N", 500)
 	r := rand.New(rand.NewSource(seed*7919 + 3))
